@@ -56,58 +56,101 @@ structure SignLocals where
   a  : Option Int := none
   deriving Repr, Inhabited
 
+/-- how the caller holds the secret nonce.  `musig2.sign` is written for a `bytearray`; the other
+    spellings are what a caller can pass instead, and the source's promise for them is that "an
+    immutable secnonce is one nothing can spend": the slice assignment (or the read) raises. -/
+inductive NonceKind
+  | buf        -- bytearray
+  | view       -- writable memoryview: the slice assignment must keep the size
+  | frozen     -- bytes / read-only memoryview: the slice assignment raises TypeError
+  | text       -- hex str: `int.from_bytes` raises TypeError
+  deriving DecidableEq, Repr, Inhabited
+
 /-- `buf[:n] = bytearray(n)`. -/
 def zeroPrefix (n : Nat) (bs : Bytes) : Bytes := List.replicate n 0 ++ bs.drop n
 
 /-- Interpreter of the statement list of `musig2.sign`: returns the bytearray as the call leaves it
     and what the call answers. -/
-def runSign (n : Int) (x : SignArgs) : List SignStep → Bytes → SignLocals → Bytes × Except Err Bytes
+def runSign (kind : NonceKind) (n : Int) (x : SignArgs) :
+    List SignStep → Bytes → SignLocals → Bytes × Except Err Bytes
   | [], nonce, _ => (nonce, .error .foreign)
   | s :: rest, nonce, l =>
     match s with
-    | .session => if x.ctxOk then runSign n x rest nonce l else (nonce, .error x.ctxErr)
-    | .readK1 => runSign n x rest nonce { l with k1 := some (ofBE (nonce.take 32) : Nat) }
-    | .readK2 => runSign n x rest nonce { l with k2 := some (ofBE ((nonce.take 64).drop 32) : Nat) }
-    | .zero m => runSign n x rest (zeroPrefix m nonce) l
+    | .session => if x.ctxOk then runSign kind n x rest nonce l else (nonce, .error x.ctxErr)
+    | .readK1 =>
+      if kind = .text then (nonce, .error .foreign)
+      else runSign kind n x rest nonce { l with k1 := some (ofBE (nonce.take 32) : Nat) }
+    | .readK2 =>
+      if kind = .text then (nonce, .error .foreign)
+      else runSign kind n x rest nonce { l with k2 := some (ofBE ((nonce.take 64).drop 32) : Nat) }
+    | .zero m =>
+      match kind with
+      | .buf => runSign kind n x rest (zeroPrefix m nonce) l
+      | .view => if m ≤ nonce.length then runSign kind n x rest (zeroPrefix m nonce) l else (nonce, .error .foreign)
+      | .frozen => (nonce, .error .foreign)
+      | .text => (nonce, .error .foreign)
     | .checkK1 =>
       match l.k1 with
       | none => (nonce, .error .foreign)
-      | some k => if 0 < k ∧ k < n then runSign n x rest nonce l else (nonce, .error .value)
+      | some k => if 0 < k ∧ k < n then runSign kind n x rest nonce l else (nonce, .error .value)
     | .checkK2 =>
       match l.k2 with
       | none => (nonce, .error .foreign)
-      | some k => if 0 < k ∧ k < n then runSign n x rest nonce l else (nonce, .error .value)
+      | some k => if 0 < k ∧ k < n then runSign kind n x rest nonce l else (nonce, .error .value)
     | .negate =>
       match l.k1, l.k2 with
       | some k1, some k2 =>
-        if x.rOdd then runSign n x rest nonce { l with k1 := some (n - k1), k2 := some (n - k2) }
-        else runSign n x rest nonce l
+        if x.rOdd then runSign kind n x rest nonce { l with k1 := some (n - k1), k2 := some (n - k2) }
+        else runSign kind n x rest nonce l
       | _, _ => (nonce, .error .foreign)
     | .key =>
-      if 0 < x.prv ∧ x.prv < n then runSign n x rest nonce { l with d := some x.prv }
+      if 0 < x.prv ∧ x.prv < n then runSign kind n x rest nonce { l with d := some x.prv }
       else (nonce, .error .value)
     | .pubKey =>
       match l.d with
-      | some _ => runSign n x rest nonce { l with pk := some x.pk }
+      | some _ => runSign kind n x rest nonce { l with pk := some x.pk }
       | none => (nonce, .error .foreign)
     | .pkCheck off =>
       match l.pk with
-      | some pk => if pk ≠ nonce.drop off then (nonce, .error .value) else runSign n x rest nonce l
+      | some pk => if pk ≠ nonce.drop off then (nonce, .error .value) else runSign kind n x rest nonce l
       | none => (nonce, .error .foreign)
     | .coeff =>
       match l.pk with
-      | some _ => if x.inSet then runSign n x rest nonce { l with a := some x.a } else (nonce, .error .value)
+      | some _ => if x.inSet then runSign kind n x rest nonce { l with a := some x.a } else (nonce, .error .value)
       | none => (nonce, .error .foreign)
-    | .calc => runSign n x rest nonce l
+    | .calc => runSign kind n x rest nonce l
     | .ret =>
       match l.k1, l.k2, l.d, l.a with
       | some k1, some k2, some d, some a =>
         (nonce, .ok (beBytes 32 ((k1 + x.b * k2 + x.e * a * (x.g * x.gacc * d % n)) % n).toNat))
       | _, _, _, _ => (nonce, .error .foreign)
 
-/-- `musig2.sign` as the current source states it. -/
-def Nonce.sign (x : SignArgs) (nonce : Bytes) : Bytes × Except Err Bytes :=
-  runSign (Gen.Lifecycle.N : Nat) x Gen.Lifecycle.musigSign nonce {}
+/-- `musig2.sign` as the current source states it, on a nonce held in a given spelling. -/
+def Nonce.signK (kind : NonceKind) (x : SignArgs) (nonce : Bytes) : Bytes × Except Err Bytes :=
+  runSign kind (Gen.Lifecycle.N : Nat) x Gen.Lifecycle.musigSign nonce {}
+
+/-- on the `bytearray` it is written for. -/
+def Nonce.sign (x : SignArgs) (nonce : Bytes) : Bytes × Except Err Bytes := Nonce.signK .buf x nonce
+
+/-- `psbt.musig2.partial_sign`, as far as the caller's nonce is concerned: the source hands the
+    caller's own object to `musig2.sign` (`Gen.Lifecycle.partialSignPassesNonce`); were it to sign
+    with a copy, the signature would come back and the caller's object would stay as it was. -/
+def Nonce.partialSign (kind : NonceKind) (x : SignArgs) (nonce : Bytes) : Bytes × Except Err Bytes :=
+  if Gen.Lifecycle.partialSignPassesNonce then Nonce.signK kind x nonce
+  else (nonce, (Nonce.signK .buf x nonce).2)
+
+/-- did the attempt return a signature? -/
+def isSig : Except Err Bytes → Bool
+  | .ok _ => true
+  | .error _ => false
+
+/-- a history of signing attempts (ecc level or psbt level, per op) on one caller-held object. -/
+def Nonce.runK (kind : NonceKind) : List (Bool × SignArgs) → Bytes → List (Except Err Bytes) × Bytes
+  | [], nonce => ([], nonce)
+  | (psbtLevel, x) :: ops, nonce =>
+    let r := if psbtLevel then Nonce.partialSign kind x nonce else Nonce.signK kind x nonce
+    let (os, final) := Nonce.runK kind ops r.1
+    (r.2 :: os, final)
 
 /-- calls a caller can make that involve the bytearray: sign with it, or look at it. -/
 inductive NonceOp
@@ -506,6 +549,28 @@ def curveKey (c : CurveId) : List Int := eqKey Gen.Lifecycle.curveEqKey c
 /-- `_libsecp256k1_serves`: flag up and `ec == secp256k1` (hash function aside). -/
 def servesCurve (secp : CurveId) (flag : Bool) (ec : CurveId) : Bool :=
   flag && decide (curveKey ec = curveKey secp)
+
+/-! ## Lazy word-lists: what a second thread can see while the first one loads
+
+The loader publishes three fields one assignment at a time (each assignment atomic under the GIL).  A
+reader decides "already loaded" from the count and then reads the index / the words.  With every read of
+the count under the lock the reader sees the loader's state before its first or after its last
+publication only; with a lock-free fast path it may see any prefix. -/
+
+/-- is `p` published once the loader has run its first `i` publications? -/
+def visible (order : List Pub) (p : Pub) (i : Nat) : Bool := (order.take i).contains p
+
+/-- the moments at which a reader may observe the loader: every prefix on a lock-free path, else the two ends. -/
+def observable (order : List Pub) (fastPath : Bool) (i : Nat) : Bool :=
+  i ≤ order.length && (fastPath || i == 0 || i == order.length)
+
+/-- no reader ever takes a language for loaded and then finds its index or its words missing: for every moment
+    `i` at which it may read the count and every later moment `j` at which it reads the rest. -/
+def wordlistSafe (order : List Pub) (fastPath : Bool) : Bool :=
+  (List.range (order.length + 1)).all fun i =>
+    (List.range (order.length + 1)).all fun j =>
+      !(observable order fastPath i && decide (i ≤ j) && visible order .count i) ||
+        (visible order .index j && visible order .words j)
 
 /-! ## Backend flag -/
 
